@@ -934,7 +934,7 @@ func multiPlans(g *gen, thorough bool) []Plan {
 	for j := 0; j <= 4; j++ {
 		plans = append(plans, g.multiRotateWitness(j))
 	}
-	n, rounds := 50, 3
+	n, rounds := 36, 3
 	if thorough {
 		n, rounds = 300, 5
 	}
